@@ -188,28 +188,28 @@ type lfObl struct {
 }
 
 type lfEngine struct {
-	c         *Ctx
-	symNames  []string
-	nextID    int
-	obls      map[string]*lfObl
-	order     []string
-	quiet     int
-	steps     int
-	maxSteps  int
-	maxDepth  int
-	analysed  map[*ssa.Function]bool
-	addrTaken map[string][]*ssa.Function
-	pure      map[*ssa.Function]int // 0 unknown, 1 pure, 2 impure
-	loopsSeen map[string]string     // loop key → termination verdict
+	c           *Ctx
+	symNames    []string
+	nextID      int
+	obls        map[string]*lfObl
+	order       []string
+	quiet       int
+	steps       int
+	maxSteps    int
+	maxDepth    int
+	analysed    map[*ssa.Function]bool
+	addrTaken   map[string][]*ssa.Function
+	pure        map[*ssa.Function]int                             // 0 unknown, 1 pure, 2 impure
+	loopsSeen   map[string]string                                 // loop key → termination verdict
 	onHeapStore func(st *lfState, x *ssa.Store, p vPtr, sv lfVal) // observer of stores through pointers (rules that ask the engine about one store)
-	loopPend  map[string]*Loop      // loops with no syntactic ranking argument yet: decided by resolveLoops from sliceLow
-	sliceLow  map[*ssa.Slice]int8   // s[k:] executed: +1 when k ≥ 1 was entailed in every state that reached it, -1 otherwise
-	loopPos   map[string]token.Pos
-	budgetHit bool
-	entryName string
-	pending   []*ssa.Function
-	scheduled map[*ssa.Function]bool
-	copyTotal map[*ssa.Call]*lfCopy
+	loopPend    map[string]*Loop                                  // loops with no syntactic ranking argument yet: decided by resolveLoops from sliceLow
+	sliceLow    map[*ssa.Slice]int8                               // s[k:] executed: +1 when k ≥ 1 was entailed in every state that reached it, -1 otherwise
+	loopPos     map[string]token.Pos
+	budgetHit   bool
+	entryName   string
+	pending     []*ssa.Function
+	scheduled   map[*ssa.Function]bool
+	copyTotal   map[*ssa.Call]*lfCopy
 
 	// bits mode (engine E2)
 	bits    bool
@@ -220,7 +220,7 @@ type lfEngine struct {
 	paramSyms  map[int]Sym    // integer parameters of the entry function → their symbols
 	tracked    map[int]string
 	typeNames  map[string]string // bits mode: objects of these struct types (by type string) get this field-name prefix wherever they are created
-	paramNames map[int]string // parameter index → name under which its fields are tracked
+	paramNames map[int]string    // parameter index → name under which its fields are tracked
 	onStore    func(st *lfState, kind, name string, val string, pos token.Pos, b *bv)
 	onReturn   func(st *lfState, rets []lfVal)
 	bufSeq     int
@@ -2659,7 +2659,6 @@ var lfContractPure = map[string]bool{
 	"(crypto/cipher.BlockMode).CryptBlocks":       true,
 	"github.com/gebn/bmc/internal/pkg/bcd.Decode": true,
 }
-
 
 // nameByType: in bits mode with typeNames set, a newly created object of a listed struct
 // type is tracked under that type's prefix (so that the fields of "the RAKP Message 1" have
